@@ -284,6 +284,7 @@ def group_reader(ctx, F):
     readerrules.xref_stream_defaults(ctx, F)
     readerrules.stream_body_start(ctx, F)
     readerrules.prev_chain(ctx, F)
+    readerrules.number_widths(ctx, F)
 
 
 def group_strings(ctx, F):
@@ -340,6 +341,7 @@ def group_pages(ctx, F):
 def group_sections(ctx, F):
     import prop_c03, prop_c19
     prop_c03.section_building(ctx, F)
+    prop_c03.xref_stream_widths(ctx, F)       # offsets are four bytes wide in a cross-reference stream, as /W says
     prop_c19.counted_sink(ctx, F)
 
 
